@@ -111,6 +111,9 @@ func valueClass(v *Val) string {
 		if v.S == "true" || v.S == "false" {
 			return "sym-" + v.S
 		}
+		if strings.HasPrefix(v.S, ":") {
+			return "keyword"
+		}
 		return "sym"
 	case kNil:
 		return "nil"
@@ -158,7 +161,7 @@ func litSrc(v *Val) string {
 	case kStr:
 		return strconv.Quote(v.S)
 	case kSym:
-		if v.S == "true" || v.S == "false" {
+		if v.S == "true" || v.S == "false" || strings.HasPrefix(v.S, ":") {
 			return v.S
 		}
 		return "'" + v.S
@@ -267,6 +270,29 @@ func allInputs() []Input {
 	add("map:a=arr", `(sorted-map "a" (vector 1))`, vMap(sk("a"), vArr(vInt(1))))
 	add("map:a=nil", `(sorted-map "a" ())`, vMap(sk("a"), vNil()))
 	add("map:a=2^53+1", `(sorted-map "a" 9007199254740993)`, vMap(sk("a"), vInt(two53+1)))
+
+	// Values whose name / spelling coincides with a declared STRING without
+	// being that string (LVal.Str is also a symbol's name, a tagged value's
+	// type name, and "" for numbers, (), arrays and maps): for every declared
+	// string s the symbol s, the keyword :s, the bytes with the same content,
+	// a tagged value whose type name is s -- alone and as map value / element.
+	add("sym:a", "'a", vSym("a"))
+	add("sym:b", "'b", vSym("b"))
+	add("sym:a-unquoted", "(car '(a))", vSym("a"))
+	add("kw:a", ":a", vSym(":a"))
+	add("kw:true", ":true", vSym(":true"))
+	add("sym:n/a", "'n/a", vSym("n/a"))
+	add("str:\"n/a\"", `"n/a"`, vStr("n/a"))
+	add("str:typename", `"user:`+typedefA+`"`, vStr("user:"+typedefA))
+	add("str:\"1\"", `"1"`, vStr("1"))
+	add("bytes:a", `(to-bytes "a")`, vBytes(1))
+	add("tag:sym-a", `(new `+typedefA+` 'a)`, vTag(typedefA, vSym("a")))
+	add("arr:sym-a", "(vector 'a)", vArr(vSym("a")))
+	add("arr:a,sym-a", `(vector "a" 'a)`, vArr(vStr("a"), vSym("a")))
+	add("map:a=sym-a", `(sorted-map "a" 'a)`, vMap(sk("a"), vSym("a")))
+	add("map:a=empty-str", `(sorted-map "a" "")`, vMap(sk("a"), vStr("")))
+	add("map:a=sym-a,b=1", `(sorted-map "a" 'a "b" 1)`, vMap(sk("a"), vSym("a"), sk("b"), vInt(1)))
+	add("kwmap:a=1", `(sorted-map :a 1)`, vMap(vSym(":a"), vInt(1)))
 
 	// the same maps symbol-keyed
 	symTwin := func(name, src string, v *Val, twin string) {
